@@ -1,4 +1,6 @@
 """C12 - after any reorg the pool agrees with the new chain (structural necessary conditions)."""
+import re
+
 import kinds as K
 from common import VERIFY
 
@@ -18,7 +20,46 @@ def _distinct_locals(b, c):
     return "p" in c.args[0] and "p" in c.args[1] and _T.root_local(b, c.args[0]) != _T.root_local(b, c.args[1])
 
 
+def dangling_children(F, S, R):
+    """F17 (fixed 54deb81): when a detached transaction cannot be re-added (it no longer resolves), the pooled transactions spending its outputs
+    are removed; they have no pool parent link (they were submitted while the parent was on chain), so nothing else removes them."""
+    cos = [b for b in F.bodies_of_crate("ckb_tx_pool") if b.kind != "Fn" and re.search(r"TxPoolService>?::readd_detached_tx::\{closure#0\}$", b.path)]
+    if not cos:
+        R.bad("mustcall/readd/unresolved-sweep/anchor-lost", "readd_detached_tx coroutine not found", [])
+        return
+    b = cos[0]
+    R.fn(b)
+    arms = K.enum_arms(b, "core::result::Result", [r"call:.*resolve_tx$"])
+    def reaches_removal(c, depth=0):
+        if re.search(r"PoolMap::remove_entry_and_descendants$", c.callee):
+            return True
+        if depth >= 3:
+            return False
+        return any(reaches_removal(c2, depth + 1) for cb in S.callee_bodies(c) if "ckb_tx_pool" in cb.path for x in K.with_nested(cb) for c2 in x.calls)
+    sweep = {c.bb for c in b.calls if "ckb_tx_pool" in c.callee and not re.search(r"_submit_entry$|resolve_tx$|check_tx_fee$|verify_rtx$", c.callee) and reaches_removal(c)}
+    R.sites += len(arms) + len(sweep)
+    errs = [a for a in arms if "Err" in a[1] or a[2] is not None]
+    if not arms:
+        R.bad("mustcall/readd/unresolved-sweep/anchor-lost", "the match on resolve_tx's result was not found in readd_detached_tx", [b.where()])
+        return
+    ok = True
+    nxt = {c.bb for c in b.calls if c.callee.endswith("Iterator::next")}
+    for (sw, tbl, other) in arms:
+        tgt = tbl.get("Err", other)
+        if tgt is None:
+            continue
+        # within the same iteration the sweep must be reachable from the failure arm (it may be guarded by "is it back in the pool?")
+        if not (b.reachable(tgt, avoid=nxt) & sweep):
+            ok = False
+    if ok and sweep:
+        R.ok("mustcall/readd/unresolved-sweep", "a detached transaction that cannot be re-added has its pooled spenders removed before the next one is handled", [b.where(sorted(sweep)[0])])
+    else:
+        R.bad("mustcall/readd/unresolved-sweep", "readd_detached_tx drops a detached transaction that no longer resolves and leaves the pooled transactions spending its outputs in place "
+              "(inputs that exist neither on the chain nor in the pool)", [b.where()])
+
+
 def run(F, S, R, tier):
+    R.guard("mustcall/readd/unresolved-sweep", lambda: dangling_children(F, S, R))
     up = F.need("ckb_tx_pool::process::_update_tx_pool_for_reorg")
 
     # ---------------------------------------------------------------- 1. maintenance steps and their order
